@@ -220,6 +220,14 @@ fn crash_profile() -> Profile {
     }
 }
 
+/// C04 only runs the checker on crash images (no guest reads), so it can afford a few tall images
+fn crash_profile_c04() -> Profile {
+    Profile {
+        tall_l1_pct: 30,
+        ..crash_profile()
+    }
+}
+
 fn crash_assumptions() -> Vec<String> {
     vec![
         "crash model: a request is durable iff a successful fsync was submitted after it completed and has itself completed; every other request issued so far is independently persisted, lost, or torn at block-size granularity (any one of the versions a block received may survive)".into(),
@@ -258,7 +266,7 @@ impl Prop for C04 {
             name: "crash",
             quick: 2_000,
             thorough: 60_000,
-            profile: crash_profile,
+            profile: crash_profile_c04,
             cfg: || CrashCfg {
                 check_safe: true,
                 check_durable: false,
